@@ -187,7 +187,10 @@ def make_calc(spec: dict):
 
 
 def reference_energy(spec: dict, atoms) -> float:
-    """From-scratch energy of `atoms` by an independent evaluation."""
+    """From-scratch energy of `atoms` by an independent evaluation (NaN for a non-finite configuration: an integrator
+    blow-up force-accepted by the tape has no energy to compare with; ASE's neighbour list raises on it)."""
+    if not (np.all(np.isfinite(atoms.positions)) and np.all(np.isfinite(np.asarray(atoms.cell.array)))):
+        return float("nan")
     if spec["style"] == "ase_lj":
         a = atoms.copy()
         a.calc = LennardJones(**spec.get("lj", LJ_DEFAULT))
